@@ -266,7 +266,9 @@ def given_flag_is_set_for_every_configured_value(ctx):
         raise AnchorMissing('pobj.given = True not found in Module._handle_writes', violation=f'{hw.qualname}:given flag set for explicit values')
     for t, v, s in stores:
         ifs = [a for a in ancestors(s) if isinstance(a, ast.If)]
-        ok = len(ifs) == 1 and src(ifs[0].test).endswith('.value is None') and any(s is x for st in ifs[0].orelse for x in ast.walk(st))
+        t = src(ifs[0].test) if ifs else ''
+        in_else = bool(ifs) and any(s is x for st in ifs[0].orelse for x in ast.walk(st))
+        ok = len(ifs) == 1 and ((t.endswith('.value is None') and in_else) or (t.endswith('.value is not None') and not in_else))
         ctx.check(ok, f'{hw.qualname}:given flag set for explicit values', s, 'set unconditionally in the explicit-value branch',
                   f'`{src(s)}` is nested under {[src(a.test) for a in ifs]}: a persistent parameter without write method that is given in the '
                   'configuration is not marked as given - the stored value silently overrides the configured one at start-up', hw)
